@@ -177,17 +177,27 @@ theorem eq_of_allGe_of_le {l r : List Rat} (h : Forall₂ (· ≤ ·) l r) (hge 
     have : allGe s t = true := by simpa [allGe] using hge.2
     rw [le_antisymm hab hge.1, ih this]
 
+/-- pointwise `l ≤ r`: the crossing test of the constructor does not fire -/
+theorem no_cross_of_le {l r : List Rat} (h : Forall₂ (· ≤ ·) l r) :
+    (l.zip r).any (fun p => decide (p.1 > p.2)) = false := by
+  induction h with
+  | nil => simp
+  | @cons a b s t hab _ ih =>
+    simp only [List.zip_cons_cons, List.any_cons, Bool.or_eq_false_iff, decide_eq_false_iff_not, not_lt]
+    exact ⟨hab, ih⟩
+
 /-- list-form constructor, bounds in the right order: accepted unchanged -/
 theorem mk_list_le (n : Nat) (l r : List Rat) (hl : l.length = n) (hr : r.length = n)
     (sl : l.Pairwise (· ≤ ·)) (sr : r.Pairwise (· ≤ ·)) (h : Forall₂ (· ≤ ·) l r) :
     mk n true l r = .ok ⟨l, r⟩ := by
   have il := isIncreasing_of_sorted l sl
   have ir := isIncreasing_of_sorted r sr
+  have nc := no_cross_of_le h
   by_cases hge : lexGe l r = true
   · have e := eq_of_lexGe_of_le h hge
     subst e
-    simp [mk, hge, boundSteps, hl, il, bind, Except.bind]
-  · simp [mk, hge, boundSteps, hl, hr, il, ir, bind, Except.bind]
+    simp [mk, hge, boundSteps, hl, il, nc, bind, Except.bind]
+  · simp [mk, hge, boundSteps, hl, hr, il, ir, nc, bind, Except.bind]
 
 /-- list-form constructor, bounds handed over in the wrong order: exchanged -/
 theorem mk_list_ge (n : Nat) (l r : List Rat) (hl : l.length = n) (hr : r.length = n)
@@ -196,7 +206,8 @@ theorem mk_list_ge (n : Nat) (l r : List Rat) (hl : l.length = n) (hr : r.length
   have il := isIncreasing_of_sorted l sl
   have ir := isIncreasing_of_sorted r sr
   have hge := lexGe_of_ge h
-  simp [mk, hge, boundSteps, hl, hr, il, ir, bind, Except.bind]
+  have nc := no_cross_of_le h
+  simp [mk, hge, boundSteps, hl, hr, il, ir, nc, bind, Except.bind]
 
 /-- array-form constructor, bounds in the right order: accepted unchanged -/
 theorem mk_arr_le (n : Nat) (l r : List Rat) (hl : l.length = n) (hr : r.length = n)
@@ -205,11 +216,12 @@ theorem mk_arr_le (n : Nat) (l r : List Rat) (hl : l.length = n) (hr : r.length 
   have il := isIncreasing_of_sorted l sl
   have ir := isIncreasing_of_sorted r sr
   have hlen : l.length = r.length := by omega
+  have nc := no_cross_of_le h
   by_cases hge : allGe l r = true
   · have e := eq_of_allGe_of_le h hge
     subst e
-    simp [mk, hge, boundSteps, hl, il, bind, Except.bind]
-  · simp [mk, hlen, hge, boundSteps, hl, hr, il, ir, bind, Except.bind]
+    simp [mk, hge, boundSteps, hl, il, nc, bind, Except.bind]
+  · simp [mk, hlen, hge, boundSteps, hl, hr, il, ir, nc, bind, Except.bind]
 
 /-! ## images of a well-formed p-box -/
 
